@@ -1,4 +1,5 @@
 import Cutadapt.Properties.C06
+import Cutadapt.Proofs.StatsMergeMain
 #print axioms Cutadapt.C06.ordered_writer
 #print axioms Cutadapt.C06.ordered_writer_prefix
 #print axioms Cutadapt.C06.each_chunk_once
@@ -9,3 +10,8 @@ import Cutadapt.Properties.C06
 #print axioms Cutadapt.C06.executions_finite
 #print axioms Cutadapt.C06.maximal_execution_ends
 #print axioms Cutadapt.C06.natAdd_isCommMonoid
+#print axioms Cutadapt.C06.merged_statistics_of_any_chunking
+#print axioms Cutadapt.C06.merged_statistics_order_independent
+#print axioms Cutadapt.C06.isSum_zero_left
+#print axioms Cutadapt.C06.isSum_zero_right
+#print axioms Cutadapt.C06.statistics_merge_comm_assoc
